@@ -1,10 +1,10 @@
 SPECIFICATION MSpec
 CONSTANTS
-  DevKeyNoOffset = TRUE
+  DevKeyNoOffset = FALSE
   DevPerHandle = FALSE
   DevUnguardedFill = FALSE
   DevFillOnError = FALSE
-  DevKeyNoMethod = FALSE
+  DevKeyNoMethod = TRUE
   NR = 2
   MaxFaults = 0
 VIEW MView
